@@ -151,8 +151,11 @@ impl HonestNet {
     }
     /// main chain grows by n blocks; subscribed peers announce
     pub fn grow(&self, w: &mut World, n: u64) {
-        w.grow_chain(self.main, n);
-        self.sync_views(w, true);
+        // a node pushes every new block to its subscribers, one announcement per block
+        for _ in 0..n {
+            w.grow_chain(self.main, 1);
+            self.sync_views(w, true);
+        }
     }
     /// grow without announcements (e.g. while the client is down)
     pub fn grow_silent(&self, w: &mut World, n: u64) {
